@@ -69,7 +69,9 @@ Enter ==
   /\ IF nb = 0
        THEN err' = <<"node", Top.path>> /\ done' = TRUE /\ UNCHANGED <<frames, visits, nb>>
        ELSE
-         LET f == Top
+         LET f0 == Top
+             \* reify(): an ExploreInterpretAs clause AT this node replaces the node by its reification and itself by `next`
+             f == IF f0.s.t = "as" THEN [f0 EXCEPT !.n = Reify(f0.n), !.s = f0.s.ss[1]] ELSE f0
              hidden == ~f.past /\ Len(f.path) < StartLen        \* before the start-at path: not visited
              m == MatchOf(f.s, f.n)
              v == IF m # Nil THEN [path |-> f.path, reason |-> "m", node |-> m]
@@ -137,7 +139,10 @@ Resolve(g, n, path) ==
        IF c = <<>> THEN <<>> ELSE Resolve(g, c[1], Tail(path))
 
 \* every visited path resolves to the visited node (modulo the slice a subset matcher takes)
+\* (below a reified node the reported paths are relative to the REIFIED view -- that is what an ADL is for -- so walks
+\* that interpret nodes through an ADL are outside this statement)
 VisitedPathsResolve ==
+  ~HasAs(case.sel) =>
   \A i \in DOMAIN visits :
      LET r == Resolve(G, G[1], visits[i].path) IN
      r # <<>> /\ (visits[i].reason = "c" => r[1] = visits[i].node)
